@@ -416,3 +416,60 @@ Section ParseFacts.
     - simpl. lia.
   Qed.
 End ParseFacts.
+
+(* disable_all: a section whose (last) disable_all is true yields an explicit
+   `false` for the tracked error code unless the section itself sets it to true *)
+Section DisableAll.
+  Variable files : list file.
+
+  Fixpoint final_disable {O} (es : list (entry O)) (dis : bool) : bool :=
+    match es with
+    | [] => dis
+    | EDisableAll b :: r => final_disable r b
+    | _ :: r => final_disable r dis
+    end.
+
+  Fixpoint sets_true {O} (es : list (entry O)) : bool :=
+    match es with
+    | [] => false
+    | ESet v :: r => Z.eqb v 1 || sets_true r
+    | _ :: r => sets_true r
+    end.
+
+  Fixpoint settings {O} (es : list (entry O)) : list Z :=
+    match es with
+    | [] => []
+    | ESet v :: r => v :: settings r
+    | _ :: r => settings r
+    end.
+
+  Theorem direct_disable_all {O} (es : list (entry O)) mp p :
+    forall en dis i, In i (direct true es mp p en dis) <->
+      (exists v, In v (settings es) /\ i = mk_inst v mp false p) \/
+      (final_disable es dis = true /\ (en || sets_true es) = false /\ i = mk_inst 0%Z mp false p).
+  Proof.
+    induction es as [|e es IH]; intros en dis i.
+    - simpl. unfold sec_tail. rewrite inst_prio_id, orb_false_r.
+      destruct dis, en; simpl;
+        (split; [intros H | intros [(v & [] & _)|(H1 & H2 & H3)]]);
+        try contradiction; try discriminate.
+      * destruct H as [<-|[]]. right; auto.
+      * left. auto.
+    - destruct e as [v| | | |t|o|b]; cbn [direct final_disable sets_true settings].
+      + cbn [In]. rewrite IH. simpl (true && _). split.
+        * intros [<-|[(w & Hw & ->)|(H1 & H2 & H3)]].
+          -- left. exists v. auto.
+          -- left. exists w. auto.
+          -- right. rewrite <- orb_assoc in H2. auto.
+        * intros [(w & [<-|Hw] & ->)|(H1 & H2 & H3)].
+          -- left; reflexivity.
+          -- right; left; eauto.
+          -- right; right. rewrite <- orb_assoc. auto.
+      + apply IH.
+      + apply IH.
+      + apply IH.
+      + apply IH.
+      + apply IH.
+      + apply IH.
+  Qed.
+End DisableAll.
